@@ -6,9 +6,9 @@
    true), meta (metainfo file), tasks (rows of the sqlite table), bk (backend contents per namespace) and pcs (the
    gate at which every handler / worker / cleanup goroutine is parked now).
 
-   Every record is consumed in two sub-steps: the WriteBack action bound to the record, then TObs, which lets the
-   LRU file map's deferred eviction remove un-flagged files (the only files an eviction may remove) and requires
-   the resulting state to be EXACTLY the observed one.  The property (Safe, EndOK) is an invariant of every state.
+   Every record is consumed in two sub-steps: the WriteBack action bound to the record, whose successor state must
+   be EXACTLY the observed one except that un-flagged files may be missing, then TObs, the LRU file map's deferred
+   eviction of exactly those files.  The property (Safe, EndOK) is an invariant of every state.
 
    Where the candidate repairs change a step (FFindNone, XRead on a missing file, XClear, HGenMeta, FSxLast) the
    trace spec offers the as-built and the repaired behaviour; the observation picks one and the invariants judge.  *)
@@ -79,34 +79,43 @@ TBackendUp == IsEv("BackendUp") /\ BackendUp(R.n)
 TRestart == IsEv("Restart") /\ Restart
 TEnd == ph = 0 /\ l <= Len(Trace) /\ R.ev = "End" /\ ph' = 1 /\ l' = l + 1 /\ ended' = R.strict /\ UNCHANGED vars
 
-\* ---- the observation closes the record
-OT == [t \in T |-> IF \E i \in 1..Len(RO.tasks) : RO.tasks[i][1] = t.n /\ RO.tasks[i][2] = t.d
-                   THEN RO.tasks[CHOOSE i \in 1..Len(RO.tasks) : RO.tasks[i][1] = t.n /\ RO.tasks[i][2] = t.d][3]
-                   ELSE "none"]
-OB == {[n |-> RO.bk[i][1], d |-> RO.bk[i][2]] : i \in 1..Len(RO.bk)}
-P == RO.pcs
-PcsOK ==
-  /\ hd["h1"].pc = P.h1 /\ hd["h2"].pc = P.h2
-  /\ ex["wi"].pc = P.wi /\ ex["wi"].t = [n |-> P.win, d |-> P.wid]
-  /\ ex["wr"].pc = P.wr /\ ex["wr"].t = [n |-> P.wrn, d |-> P.wrd]
-  /\ ex["fc"].pc = P.fx /\ ex["fc"].t = [n |-> P.fn, d |-> P.ft]
-  /\ fc.pc = P.fc /\ (fc.pc # "idle" => fc.d = P.fd)
-  /\ cl.pc = P.cl /\ (cl.pc # "idle" => cl.d = P.cd)
-TObs ==
+\* ---- the observation.  A record's action must produce EXACTLY the observed state, except that un-flagged files may
+\* be missing (they are removed by TObs, the eviction sub-step).  The match is required of the action's successor
+\* state, so a behaviour (as built / repaired) that the observation contradicts never becomes a state.
+OT(r) == [t \in T |-> IF \E i \in 1..Len(r.tasks) : r.tasks[i][1] = t.n /\ r.tasks[i][2] = t.d
+                      THEN r.tasks[CHOOSE i \in 1..Len(r.tasks) : r.tasks[i][1] = t.n /\ r.tasks[i][2] = t.d][3]
+                      ELSE "none"]
+OB(r) == {[n |-> r.bk[i][1], d |-> r.bk[i][2]] : i \in 1..Len(r.bk)}
+PcsOK(p, vh, vx, vf, vc) ==
+  /\ vh["h1"].pc = p.h1 /\ vh["h2"].pc = p.h2
+  /\ vx["wi"].pc = p.wi /\ vx["wi"].t = [n |-> p.win, d |-> p.wid]
+  /\ vx["wr"].pc = p.wr /\ vx["wr"].t = [n |-> p.wrn, d |-> p.wrd]
+  /\ vx["fc"].pc = p.fx /\ vx["fc"].t = [n |-> p.fn, d |-> p.ft]
+  /\ vf.pc = p.fc /\ (vf.pc # "idle" => vf.d = p.fd)
+  /\ vc.pc = p.cl /\ (vc.pc # "idle" => vc.d = p.cd)
+ObsAt(r, vcache, vpersist, vmeta, vtask, vbk, vh, vx, vf, vc) ==
+  LET E == vcache \ S(r.cache) IN
+  /\ S(r.cache) \subseteq vcache /\ E \cap vpersist = {}       \* an eviction never removes a flagged file
+  /\ vpersist = S(r.pers) /\ vmeta \ E = S(r.meta)
+  /\ vtask = OT(r) /\ vbk = OB(r)
+  /\ Len(r.tasks) = Cardinality({t \in T : OT(r)[t] # "none"})   \* no row outside the modelled keys
+  /\ PcsOK(r.pcs, vh, vx, vf, vc)
+Match == ObsAt(R, cache', persist', meta', task', bk', hd', ex', fc', cl')
+
+TObs ==                                   \* fileMap.TryStore's deferred eviction, if the record shows one
   /\ ph = 1 /\ ph' = 0 /\ l' = l /\ UNCHANGED ended
-  /\ LET OC == S(RO.cache) E == cache \ S(RO.cache) IN
-       /\ OC \subseteq cache /\ E \cap persist = {}             \* an eviction never removes a flagged file
-       /\ cache' = OC /\ meta' = meta \ E /\ UNCHANGED persist
-       /\ persist = S(RO.pers) /\ meta' = S(RO.meta)
-  /\ task = OT /\ bk = OB /\ PcsOK
-  /\ Len(RO.tasks) = Cardinality({t \in T : OT[t] # "none"})    \* no row outside the modelled keys
+  /\ LET E == cache \ S(RO.cache) IN
+       /\ cache' = S(RO.cache) /\ meta' = meta \ E /\ UNCHANGED persist
   /\ UNCHANGED <<task, queue, bk, bup, hd, ex, fc, cl, acked, cacked, cnt>>
 
 TraceNext ==
-  \/ TReset \/ TStart \/ TPatch \/ TCommit \/ TAbandon \/ TSetPersist \/ TAddTask \/ TGenMeta \/ TAck
-  \/ TWTake \/ TXStat \/ TXRead \/ TXUpload \/ TXClear \/ TWRemove \/ TWMarkFailed \/ TPoll
-  \/ TDelete \/ TClStart \/ TClFile \/ TFStart \/ TFOwn \/ TFFind \/ TFSx
-  \/ TTransfer \/ TBackendDown \/ TBackendUp \/ TRestart \/ TEnd \/ TObs
+  \/ TReset
+  \/ /\ \/ TStart \/ TPatch \/ TCommit \/ TAbandon \/ TSetPersist \/ TAddTask \/ TGenMeta \/ TAck
+        \/ TWTake \/ TXStat \/ TXRead \/ TXUpload \/ TXClear \/ TWRemove \/ TWMarkFailed \/ TPoll
+        \/ TDelete \/ TClStart \/ TClFile \/ TFStart \/ TFOwn \/ TFFind \/ TFSx
+        \/ TTransfer \/ TBackendDown \/ TBackendUp \/ TRestart \/ TEnd
+     /\ Match
+  \/ TObs
 TraceSpec == TraceInit /\ [][TraceNext]_tvars
 
 \* after the final drain (every backend up, every context run to completion, the poller run until the task table
